@@ -28,6 +28,10 @@ property is about DNS identifiers and proofs produced by acmed).  Simplification
 the definition: directories are tracked only as the set of paths known to exist (ancestors created by
 `mkdir -p` are not listed: no shipped hook inspects them); "cannot create/remove here" is the list
 `blocked` of path prefixes; a TCP bind conflicts only with the same `host:port` string.
+File modes are reduced to one flag per regular file (`worldReadable`); directory modes are NOT modelled
+(observation: `mkdir -m 0755 -p` gives 0755 to the last directory only, the intermediate ones get
+0777 & ~umask = 0750 under the umask 027 of a daemonised acmed; a unix socket bound by the daemonised
+tacd gets 0777 & ~027 = 0750 as well).
 The model is sequential: the race between the daemonised `tacd` (which binds AFTER the hook
 returned) and the CA's connection, and observation b (file not yet flushed), cannot be exhibited.
 -/
@@ -281,9 +285,11 @@ def exec (w : World) : Cmd → World × String × Bool
 /-! ## Running hooks -/
 
 /-- `File::create(path)` (`hooks.rs:119`): needs an existing parent directory, truncates an existing
-file (mode kept), creates a new one with mode 0666 & ~umask. -/
+file (mode kept), creates a new one with mode 0666 & ~umask; a path ending in '/' (empty file name)
+is refused (EISDIR). -/
 def createFile (w : World) (path : String) : Option World :=
   if isBlocked w path || decide (path ∈ w.dirs) || decide (path ∈ w.socks) then none
+  else if path.toList.getLast? == some '/' then none
   else if !(dirname path == "" || decide (dirname path ∈ w.dirs)) then none
   else
     match getFile w path with
